@@ -11,6 +11,7 @@ import Petl.Dedup
 import Petl.Select
 import Petl.ErrPolicy
 import Petl.Basics
+import Petl.Reshape
 namespace Petl
 
 def opCmp : P String := do
@@ -632,6 +633,102 @@ def opXf : P String := do
     pure (showOut (.ok (columnsOf hdr.length m (t.drop 1))))
   | _ => P.fail s!"bad transform {name}"
 
+/-! ### C14: reshape -/
+
+def valLe (a b : Val) : Bool := !Val.lt b a
+
+def distinctSorted (vs : List Val) : List Val := (dedupVals vs).mergeSort valLe
+
+def opRs : P String := do
+  let name ← tok
+  match name with
+  | "melt" => do
+    let key ← pKeyReq; let vars ← pKeyReq; let vf ← pVal; let valf ← pVal; let t ← pTable
+    match t with
+    | [] => pure (showOut (.ok []))
+    | hdr :: rows =>
+      match asindices hdr key, asindices hdr vars with
+      | .ok kidx, .ok vidx =>
+        let outhdr := kidx.map (getCell hdr) ++ [vf, valf]
+        pure (showOut (outOf outhdr (meltRows kidx (vidx.map (fun i => (i, getCell hdr i))) rows)))
+      | .error e, _ => pure (showOut (.fail [] e))
+      | _, .error e => pure (showOut (.fail [] e))
+  | "recast" => do
+    let key ← pKeyReq; let varf ← pVal; let valf ← pVal; let m ← pVal; let bs ← pOptNat; let t ← pTable
+    match t with
+    | [] => pure (showOut (.ok []))
+    | hdr :: rows =>
+      match asindices hdr key, hdrIndex hdr varf, hdrIndex hdr valf with
+      | .ok kidx, some vi, some wi =>
+        let variables := distinctSorted (rows.map (fun r => getCell r vi))
+        pure (showOut (.ok ((kidx.map (getCell hdr) ++ variables) :: recastRows kidx vi wi variables m bs rows)))
+      | _, _, _ => pure "ERR unsupported"
+  | "transpose" => do let t ← pTable; pure (showOut (.ok (transposeT t)))
+  | "flatten" => do let t ← pTable; pure (showOut (.ok [flattenVals (t.drop 1)]))
+  | "unflatten" => do
+    let n ← pNat; let m ← pVal; let vals ← pSeq
+    let hdr : Row := (List.range n).map (fun i => Val.str (("f" ++ toString i).toList.map Char.toNat))
+    pure (showOut (.ok (hdr :: unflattenRows n m vals)))
+  | "pivot" => do
+    let f1 ← pNat; let f2 ← pNat; let f3 ← pNat; let agg ← pAggFn; let m ← pVal; let bs ← pOptNat; let t ← pTable
+    match t with
+    | [] => pure "ERR unsupported"
+    | hdr :: rows =>
+      let f2vals := distinctSorted (rows.map (fun r => padGet .none r f2))
+      pure (showOut (outOf (getCell hdr f1 :: f2vals) (pivotRows f1 f2 f3 f2vals agg m bs rows)))
+  | "unpack" => do
+    let fi ← pNat; let n ← pNat; let names ← pOptRow; let incl ← pBool; let m ← pVal; let t ← pTable
+    match t with
+    | [] => pure "ERR unsupported"
+    | hdr :: rows =>
+      let fname := getCell hdr fi
+      let newf : Row := match names with
+        | some ns => ns
+        | none => (List.range n).map (fun i => match fname with
+            | .str s => Val.str (s ++ (toString (i + 1)).toList.map Char.toNat)
+            | v => v)
+      let outhdr := (if incl then hdr else hdr.eraseIdx fi) ++ newf
+      let rec go : List Row → List Row × Option Err
+        | [] => ([], none)
+        | r :: rs => match unpackRow fi n incl m r with
+          | .error e => ([], some e)
+          | .ok o => let (rest, e) := go rs; (o :: rest, e)
+      pure (showOut (outOf outhdr (go rows)))
+  | "unpackdict" => do
+    let fi ← pNat; let incl ← pBool; let m ← pVal
+    let keys? ← (do match (← peekTok) with
+      | some "-" => do let _ ← tok; pure (none : Option (List Val))
+      | _ => do let ks ← pSeq; pure (some ks))
+    let t ← pTable
+    match t with
+    | [] => pure "ERR unsupported"
+    | hdr :: rows =>
+      let keys := match keys? with
+        | some ks => ks
+        | none => distinctSorted (rows.flatMap (fun r => match getCell r fi with
+            | .seq _ items => items.filterMap (fun it => match it with | .seq _ [k, _] => some k | _ => none)
+            | _ => []))
+      let outhdr := (if incl then hdr else hdr.eraseIdx fi) ++ keys
+      pure (showOut (.ok (outhdr :: rows.map (unpackdictRow fi keys incl m))))
+  | "expand" => do
+    let fi ← pNat; let incl ← pBool; let newf ← pRow; let t ← pTable; let parts ← pTable
+    match t with
+    | [] => pure "ERR unsupported"
+    | hdr :: rows =>
+      let outhdr := (if incl then hdr else hdr.eraseIdx fi) ++ newf
+      pure (showOut (.ok (outhdr :: (rows.zip parts).map (fun (r, p) => expandRow fi incl r p))))
+  | "splitdown" => do
+    let fi ← pNat; let t ← pTable; let parts ← pTable
+    match t with
+    | [] => pure (showOut (.ok []))
+    | hdr :: rows =>
+      pure (showOut (.ok (hdr :: ((rows.zip parts).map (fun (r, p) => splitdownRow hdr.length fi r p)).flatten)))
+  | "fromcolumns" => do
+    let m ← pVal; let cols ← pTable
+    let hdr : Row := (List.range cols.length).map (fun i => Val.str (("f" ++ toString i).toList.map Char.toNat))
+    pure (showOut (.ok (hdr :: fromColumnsRows m cols)))
+  | _ => P.fail s!"bad reshape op {name}"
+
 def dispatch (op : String) : Option (P String) :=
   match op with
   | "cmp" => some opCmp
@@ -660,6 +757,7 @@ def dispatch (op : String) : Option (P String) :=
   | "rowmapmany" => some opRowMapMany
   | "fieldmap" => some opFieldMap
   | "xf" => some opXf
+  | "rs" => some opRs
   | _ => none
 
 end Petl
